@@ -82,6 +82,12 @@ CLAIMED = {
     "C19": ("S", "A real MessagePassingComputation is driven through every history of up to 6 (8) operations among receive/post/pause/resume/start chosen by the engine; "
                  "handled == received and sent == posted, in order, exactly once, on every history.",
             "Histories are sequences of concrete operations (no numeric symbolic input); re-injected priority-19 messages are modelled as handled before newer ones (what C18 establishes for the agent queue).", "4/C19", S),
+    "C28": ("S", "For every shipped algorithm module the declared algo_params are read at run time and prepare_algo_params / AlgorithmDef.build_with_default_param / build_algo_def are executed on "
+                 "every combination (in the bound) of given parameters and value kinds; the expected result is computed from the AlgoParameterDef tuples. The engine enumerates the space exhaustively.",
+            "Discrete exploration with representative value pools per declared type (no symbolic strings: CrossHair was planned, Engine S's bounded choices are used instead, see DESIGN); <= 2 parameters given at once.", "4/C28", S),
+    "C29": ("S", "Every batch parameter definition in the bound (shape solver-chosen: scalars, lists, nested dicts, empty definitions) goes through regularize_parameters / parameters_configuration / "
+                 "build_option_for_parameters and is compared with an independent itertools.product oracle; determinism w.r.t. the order of the definition is checked too.",
+            "Discrete exploration (no numeric symbolic input); <= 3 (4) parameters, one nested level, values distinct after str().", "4/C29", S),
     "C31": ("S", "AgentDef.route/hosting_cost/attribute access and create_agents (list, range, tuple-of-lists indexes) executed with symbolic route costs, default route, hosting costs, "
                  "default hosting cost and capacity; presence of each specific entry is solver-chosen; the cost model and field-by-field equality with individually built agents are decided by z3.",
             "Names are drawn from small fixed sets of strings (no symbolic strings); Engine S is used instead of CrossHair (design change, see DESIGN).", "4/C31", S),
